@@ -198,6 +198,8 @@ class Program:
                 mi.imports[a.asname or a.name] = (base, a.name)
         elif isinstance(st, ast.Assign) and len(st.targets) == 1 and isinstance(st.targets[0], ast.Name):
             mi.consts[st.targets[0].id] = st.value
+        elif isinstance(st, ast.AnnAssign) and isinstance(st.target, ast.Name) and st.value is not None:
+            mi.consts[st.target.id] = st.value
         elif isinstance(st, ast.If):      # e.g. `if TYPE_CHECKING:` imports
             for s in st.body + st.orelse:
                 self._top(s, mi)
